@@ -54,6 +54,10 @@ K_NOTRUN_CALLEE = ("callee (or a function it calls) is also called on a source l
 K_AMBIG_STORE = ("attribute store through a name that may denote several objects is applied as a strong update to all "
                  "of them: the object that was not the run-time target loses its own attribute value")
 
+K_SUPER_RECEIVER = ("method signature is inferred with the defining class as receiver: super() in its body resolves along "
+                    "the defining class's MRO, not along the MRO of the subclass instance the method is called on "
+                    "(cooperative multiple inheritance)")
+
 CAPTURE = {}
 _installed = False
 
@@ -619,4 +623,17 @@ def ambiguous_store_signature(ctx, defs, trace, tree, gname, attr, executed_line
           continue
         if any(any(bb.data is i for i in insts) for bb in defs[n].bindings):
           return {"store_through": n, "line": st.lineno, "runtime_target_is_another_object": True}
+  return None
+
+
+def super_receiver_signature(tree, cls_name, meth_name, receiver_cls):
+  """Method `cls_name.meth_name` calls super() and ran on an instance of another (sub)class."""
+  import ast
+  for c in tree.body:
+    if isinstance(c, ast.ClassDef) and c.name == cls_name:
+      for f in c.body:
+        if isinstance(f, ast.FunctionDef) and f.name == meth_name:
+          for n in ast.walk(f):
+            if isinstance(n, ast.Call) and isinstance(n.func, ast.Name) and n.func.id == "super":
+              return {"method": f"{cls_name}.{meth_name}", "receiver_class_at_run_time": receiver_cls}
   return None
